@@ -439,6 +439,9 @@ class RuleFiles(Harness):
                 if tier == "quick" and len(s3) == 2 and s3[0] == s3[1] and s3[0] != "r1":
                     continue
                 out.append({"kind": "superiors", "s2": s2, "s3": s3})
+        for low in (["m1", "m2"], ["m2", "m1"], ["m1"], ["m2", "t1"], ["t1", "m2"], ["m1", "m2", "t2"]):
+            for split in (False, True):
+                out.append({"kind": "superiors5", "low": low, "split": split})
         for mult in (0.5, 1.0, 1.5, 2.0):
             for split in ((3,), (1, 2), (2, 1), (1, 1, 1)):
                 out.append({"kind": "distances", "mult": mult, "split": list(split)})
@@ -479,6 +482,12 @@ class RuleFiles(Harness):
                 return {"ok": True, "sup": {r.name: sorted(r.superiors) for r in rules}}
             except (ValueError, rp.RuleSyntaxError):
                 return {"ok": False}
+        if kind == "superiors5":
+            texts = [rule_text("t1", 10, 5, "a") + rule_text("t2", 10, 5, "b"),
+                     rule_text("m1", 10, 5, "c", ["t1"]) + rule_text("m2", 10, 5, "a or b", ["t2"]),
+                     rule_text("low", 10, 5, "a and b", var["low"])]
+            rules = self.parse_files(texts if var["split"] else ["".join(texts)])
+            return {"ok": True, "sup": {r.name: sorted(r.superiors) for r in rules}}
         if kind == "distances":
             defs = [("r1", 1, 2), ("r2", 2, 3), ("r3", 3, 1)]
             texts, i = [], 0
@@ -543,6 +552,13 @@ class RuleFiles(Harness):
                     closure[r] = acc
                 cl.append(("superiors_closed_transitively", all(out["sup"][r] == sorted(closure[r]) for r in order)))
             return cl
+        if kind == "superiors5":
+            parents = {"t1": set(), "t2": set(), "m1": {"t1"}, "m2": {"t2"}}
+            want = set(var["low"])
+            for s in var["low"]:
+                want |= parents[s]
+            return [("superiors_closed_transitively", out["sup"]["low"] == sorted(want) and out["sup"]["m1"] == ["t1"]
+                     and out["sup"]["m2"] == ["t2"])]
         if kind == "distances":
             want = {"r1": [1, 2], "r2": [2, 3], "r3": [3, 1]}
             return [("distances_in_kilobases_scaled_once",
